@@ -9,7 +9,7 @@ From Coq Require Import List NArith Bool.
 From XmlRs Require Import Base.CPred Spec.XPathSyntax.
 From XmlRs Require Import Model.XPathAst Model.XDoc Model.XPathEval Model.XPathAstAbs Model.ParseActionsXPath.
 From XmlRs Require Import Proofs.XPathParseMain Proofs.XPathCanon Proofs.XPathAstShaped Proofs.XPathParseShaped
-  Proofs.XPathAbsEval Proofs.XPathAbsInv Proofs.XPathSpelling Proofs.XPathSpellingLight.
+  Proofs.XPathAbsEval Proofs.XPathAbsInv Proofs.XPathSpelling Proofs.XPathSpellingOrd Proofs.XPathSpellingLight.
 Import ListNotations.
 
 Inductive qresult :=
@@ -156,4 +156,35 @@ Proof.
   rewrite (parsed_spelled doc _ _ e1 c W1 N1 S1 P1), (parsed_spelled doc _ _ e2 c W2 N2 S2 P2).
   rewrite (xeval_lnorm doc (c_ns c) Hns (surface sp1) doc_root c eq_refl).
   rewrite (xeval_lnorm doc (c_ns c) Hns (surface sp2) doc_root c eq_refl). rewrite E. reflexivity.
+Qed.
+
+(** ** all equivalences, every axis, documents with nodes of order key 0 *)
+Theorem spelling_irrelevant_ord_proof : forall doc bind a sp1 sp2,
+  ok_spelling a sp1 -> ok_spelling a sp2 ->
+  no_fname_case (surface sp1) = true -> no_fname_case (surface sp2) = true ->
+  DocOrd doc -> ns_lookup bind None = None ->
+  forall v, query_model doc bind (spell a sp1) = QValue v <-> query_model doc bind (spell a sp2) = QValue v.
+Proof.
+  intros doc bind a sp1 sp2 (W1 & E1 & S1) (W2 & E2 & S2) N1 N2 Hord Hns v. unfold spell.
+  rewrite (query_model_value doc bind _ _ v W1 N1 S1), (query_model_value doc bind _ _ v W2 N2 S2).
+  pose proof (XPathNav.wf_root doc (ord_wf doc Hord)) as Vr.
+  pose proof (xeval_norm_ord doc Hord bind Hns (surface sp1) doc_root Vr (ctx_of bind) eq_refl v) as Q1.
+  pose proof (xeval_norm_ord doc Hord bind Hns (surface sp2) doc_root Vr (ctx_of bind) eq_refl v) as Q2.
+  unfold xequiv in E1, E2. rewrite E1 in Q1. rewrite E2 in Q2.
+  split; intros [c' H]; exists c'; [apply Q2, Q1, H|apply Q1, Q2, H].
+Qed.
+
+Theorem spelling_irrelevant_ord_context_proof : forall doc a sp1 sp2 e1 e2 c,
+  ok_spelling a sp1 -> ok_spelling a sp2 ->
+  no_fname_case (surface sp1) = true -> no_fname_case (surface sp2) = true ->
+  parse_expr (spell a sp1) = POk e1 [] -> parse_expr (spell a sp2) = POk e2 [] ->
+  DocOrd doc -> ns_lookup (c_ns c) None = None ->
+  forall v c', query doc e1 c = (Ok v, c') <-> query doc e2 c = (Ok v, c').
+Proof.
+  intros doc a sp1 sp2 e1 e2 c (W1 & E1 & S1) (W2 & E2 & S2) N1 N2 P1 P2 Hord Hns v c'.
+  rewrite (parsed_spelled doc _ _ e1 c W1 N1 S1 P1), (parsed_spelled doc _ _ e2 c W2 N2 S2 P2).
+  pose proof (XPathNav.wf_root doc (ord_wf doc Hord)) as Vr.
+  pose proof (xeval_norm_ord doc Hord (c_ns c) Hns (surface sp1) doc_root Vr c eq_refl v c') as Q1.
+  pose proof (xeval_norm_ord doc Hord (c_ns c) Hns (surface sp2) doc_root Vr c eq_refl v c') as Q2.
+  unfold xequiv in E1, E2. rewrite E1 in Q1. rewrite E2 in Q2. rewrite Q1, Q2. reflexivity.
 Qed.
